@@ -47,7 +47,14 @@ struct Runner : Hooks {
   std::vector<HState> hs;
   // world
   int cwd_node = 0, work_node = 0, n_prog_bin = -1, n_prog_usr = -1, n_prog_cwd = -1, n_prog_sub = -1, n_prog_work = -1,
-      n_prog_worksub = -1, n_existing = -1;
+      n_prog_worksub = -1, n_existing = -1, n_prog_hidden = -1;
+  std::string prog_dotdot;  // "../<name of the parent's cwd>/prog"
+  const char *prog_string(int code) {
+    static const char *const progs[] = { "/bin/prog", "./prog", "sub/prog", "prog", "/bin/missing", "/bin/noexec", "/bin", "nosuchprog", "" };
+    if (code == 9) return prog_dotdot.c_str();
+    if (code == 10) return ".hidden/prog";
+    return progs[code >= 0 && code < 9 ? code : 0];
+  }
   std::vector<char *> env_store;
   std::vector<char *> env_arr;
   char **saved_environ = nullptr;
